@@ -154,9 +154,9 @@ def gen_cases(ctx, n):
     cases = []
     for i in range(n):
         r = rng.random()
-        if r < 0.40:
+        if r < 0.34:
             c = base_case(i, rng)
-        elif r < 0.55:
+        elif r < 0.48:
             # expiry races: one or two models, short keep-alives, few requests, many internal steps
             c = base_case(i, rng, nmodels=rng.choice([1, 2]), nreq=rng.randint(2, 4), klass="expiry-race")
             for q in c["reqs"]:
@@ -165,7 +165,7 @@ def gen_cases(ctx, n):
             c["max"] = rng.choice([0, 1, 3])
             for m in c["models"]:
                 m["bad"], m["vram"] = False, 10 ** 9
-        elif r < 0.70:
+        elif r < 0.62:
             # reuse: every request is compatible with the runner of its model, nothing fails, nothing expires
             c = base_case(i, rng, klass="reuse")
             for q in c["reqs"]:
@@ -176,12 +176,12 @@ def gen_cases(ctx, n):
             if rng.random() < 0.5:
                 c["par"] = rng.choice([2, 2, 0])
                 c["gpus"] = two_gpus()
-        elif r < 0.78:
+        elif r < 0.70:
             # queue pressure: tiny queue, many submits
             c = base_case(i, rng, nreq=6, klass="queue")
             c["maxq"] = rng.choice([1, 2])
             c["pint"] = 0.5
-        elif r < 0.90:
+        elif r < 0.81:
             # two GPUs, parallelism > 1: loads in flight on one GPU, placement on the other, re-queued requests
             c = base_case(i, rng, nmodels=rng.choice([2, 3]), nreq=rng.randint(3, 6), klass="twogpu")
             c["gpus"] = two_gpus()
@@ -194,6 +194,20 @@ def gen_cases(ctx, n):
                 m["bad"] = False
                 m["vram"] = G if rng.random() < 0.5 else 10 ** 9
             c["pint"], c["pfail"] = rng.choice([0.5, 0.7]), rng.choice([0.0, 0.1])
+        elif r < 0.90:
+            # join-during-load: two or three requests for one model; the load of the first is kept parked in
+            # WaitUntilRunning while the others are dequeued, then it succeeds, fails, or its request is cancelled
+            c = base_case(i, rng, nmodels=rng.choice([1, 1, 2]), nreq=rng.randint(2, 3), klass="join-during-load")
+            for q in c["reqs"]:
+                q["m"], q["ngpu"], q["adapter"], q["ctx"] = 0, -1, 0, 2048
+                q["ka"] = rng.choice([None, -1, 5, 1000])
+            if len(c["models"]) == 2 and len(c["reqs"]) == 3 and rng.random() < 0.5:
+                c["reqs"][2]["m"] = 1
+            for m in c["models"]:
+                m["bad"], m["vram"] = False, 10 ** 9
+            c["max"], c["maxq"] = rng.choice([0, 1, 3]), 8
+            c["hold_load"], c["pint"], c["pfail"] = 0.9, 0.85, rng.choice([0.0, 0.3, 0.5])
+            c["steps"] = rng.choice([40, 70])
         else:
             # fit: the first model leaves room for the blocks of the next one but not for its output layer
             c = base_case(i, rng, nmodels=2, nreq=rng.randint(2, 4), klass="fit")
@@ -253,9 +267,15 @@ def monitor(case, o):
     submitted = []
     started = {}       # rid -> (model, key)
     live = set()
+    loaded_ok, load_failed = set(), {}      # rid: WaitUntilRunning returned nil / rid -> step at which it returned an error
     nmax = case["max"]
     for i, e in flat_events(o):
         k = e[0]
+        if k == "wait":
+            if e[2] == "ok":
+                loaded_ok.add(e[1])
+            else:
+                load_failed[e[1]] = i
         if k == "newserver" and len(e) > 9 and e[9] > 0 and e[8] == 0:
             v["C11"].append(({"class": "no-fit-start"}, "step %d: a runner for model %d is started on %s while %d other runner(s) are loaded although "
                              "the memory estimate does not place all its layers there" % (i, e[1], e[6], e[9])))
@@ -297,6 +317,11 @@ def monitor(case, o):
                 granted[q] = rid
                 if e[4] or rid in closed:
                     v["C01"].append(({"class": "grant-closed"}, "step %d: request %d is handed runner r%s, which was already shut down (llama == nil: %s)" % (i, q, rid, bool(e[4]))))
+                if rid not in loaded_ok:
+                    why = ("its load failed at step %d" % load_failed[rid]) if rid in load_failed else "its load (WaitUntilRunning) has not completed"
+                    for pid in ("C01", "C02"):
+                        v[pid].append(({"class": "grant-loading"}, "step %d: request %d is answered 'success' with runner r%s although %s: "
+                                       "neither a usable runner nor an error" % (i, q, rid, why)))
                 if rid in started and not compat_py(started[rid][1], qkey(case, q)):
                     v["C11"].append(({"class": "incompatible-options"}, "step %d: request %d (ctx,ngpu,adapter)=%s is served by runner r%d started with %s" % (i, q, qkey(case, q), rid, started[rid][1])))
                 if rid in started and started[rid][0] != case["reqs"][q]["m"]:
